@@ -153,6 +153,16 @@ def history_case(draw, disabled=()):
         pool = [decorate(draw, draw(semantic_program(profile="modelled", disabled=disabled, max_stmts=8, mode=m_, focus=foc))) for _ in range(npool)]
     else:
         pool = [decorate(draw, draw(semantic_program(profile="modelled", disabled=disabled, max_stmts=8))) for _ in range(npool)]
+    if draw(st.sampled_from([0, 0, 1])):
+        # one program of the pool has many paths (ten independent two-way branches, nothing validated): whatever the
+        # path search keeps across calls - counters, budgets, caches - gets exercised by the contracts analysed after it
+        from vf.ir import I, L
+
+        items = []
+        for j in range(10):
+            items += [I("txn", "FirstValid"), I("int", j), I("=="), I("bz", f"d{j}"), I("int", 0), I("pop"), L(f"d{j}")]
+        items += [I("int", 1), I("return")]
+        pool[0] = {"version": 6, "items": items, "mode": "lsig", "features": ["many_paths"]}
     ops = []
     for _ in range(draw(st.integers(3, 10))):
         k = draw(st.integers(0, 9))
